@@ -230,3 +230,88 @@ def to_dict(msg):
 def short(msg, n=300):
     from google.protobuf import text_format
     return text_format.MessageToString(msg, as_one_line=True)[:n]
+
+
+# ------------------------------------------------------------------ harness
+
+from mc.ref import names as _names
+
+
+def native(msg, py_names=True):
+    """Dynamic message -> plain python dict as a caller would write it
+    (python attribute names when py_names, native ints/bytes/enum numbers)."""
+    out = {}
+    for fd, val in msg.ListFields():
+        key = _names.py_field(fd.name) if py_names else fd.name
+        if is_map(fd):
+            vfd = fd.message_type.fields_by_name['value']
+            out[key] = {k: (native(v, py_names) if vfd.type == FD.TYPE_MESSAGE else v) for k, v in val.items()}
+        elif fd.type == FD.TYPE_MESSAGE:
+            sub_py = py_names and not fd.message_type.file.package.startswith('google.')
+            if fd.label == FD.LABEL_REPEATED:
+                out[key] = [_wkt_or_native(v, sub_py) for v in val]
+            else:
+                out[key] = _wkt_or_native(val, sub_py)
+        elif fd.label == FD.LABEL_REPEATED:
+            out[key] = list(val)
+        else:
+            out[key] = val
+    return out
+
+
+def _wkt_or_native(v, py_names):
+    return native(v, py_names)
+
+
+def wire_of(x):
+    """Serialise a value returned by emitted code (proto-plus or pb2 message)."""
+    if hasattr(type(x), 'serialize'):
+        return type(x).serialize(x)
+    if hasattr(x, '_pb'):
+        return x._pb.SerializeToString()
+    return x.SerializeToString()
+
+
+class Lib:
+    """Clients of an emitted library wired to the seams."""
+
+    def __init__(self, package):
+        import importlib
+        self.pkg = importlib.import_module(package)
+        self.package = package
+
+    def _creds(self):
+        from google.auth.credentials import AnonymousCredentials
+        return AnonymousCredentials()
+
+    def client_cls(self, service, asyncio_=False):
+        return getattr(self.pkg, service + ('AsyncClient' if asyncio_ else 'Client'))
+
+    def sync(self, service, clock=None):
+        from mc import seams
+        C = self.client_cls(service)
+        ch = seams.FakeChannel(clock)
+        return C(transport=C.get_transport_class('grpc')(channel=ch, credentials=self._creds())), ch
+
+    def aio(self, service, clock=None):
+        from mc import seams
+        C = self.client_cls(service)
+        A = self.client_cls(service, True)
+        ch = seams.FakeAioChannel(clock)
+        return A(transport=C.get_transport_class('grpc_asyncio')(channel=ch, credentials=self._creds())), ch
+
+    def rest(self, service, **kw):
+        C = self.client_cls(service)
+        tr = C.get_transport_class('rest')(credentials=self._creds(), host='localhost:1', url_scheme='http', **kw)
+        return C(transport=tr)
+
+    def type_of(self, full_name, target_package):
+        """Generated (or pb2) class for message `.pkg.Outer.Inner`."""
+        import importlib
+        full = full_name.lstrip('.')
+        if full.startswith(target_package + '.'):
+            obj = self.pkg
+            for part in full[len(target_package) + 1:].split('.'):
+                obj = getattr(obj, part)
+            return obj
+        return None
